@@ -405,6 +405,7 @@ func checkC15(ctx *Ctx) *Result {
 	// structural necessary conditions are decided (pairing of parallel slices,
 	// encoding agreement, insertion and lookup shape)
 	treeRules(ctx, r)
+	maskedStateRule(ctx, r, "R6.7")
 	return r
 }
 
